@@ -316,6 +316,16 @@ void snoopy_configuration_dtor ()
         CFG->syslog_ident_format_malloced = SNOOPY_FALSE;                 /* Set this to false         - REQUIRED (see above) */
         CFG->syslog_ident_format          = SNOOPY_SYSLOG_IDENT_FORMAT;   /* Set this to default value - REQUIRED (see above) */
     }
+
+
+    /*
+     * Reset all the other (non-malloc()-ed) settings too
+     *
+     * In non-thread-safe builds the configuration struct is reused by the next
+     * execv(e)() call of the same process. If the config file has disappeared
+     * or changed in the meantime, values from this run must not be carried over.
+     */
+    snoopy_configuration_setDefaults(CFG);
 }
 
 
